@@ -1,9 +1,11 @@
 import Proofs.Real
 import Pose.Model.Dynamics
+import Proofs.Lemmas.Batch
 import Mathlib.Analysis.Calculus.Deriv.Mul
 import Mathlib.Analysis.Calculus.Deriv.Add
 import Mathlib.Analysis.Calculus.Deriv.Pow
 import Mathlib.Analysis.Calculus.MeanValue
+import Mathlib.Analysis.Calculus.Deriv.MeanValue
 import Mathlib.Analysis.SpecialFunctions.Trigonometric.Deriv
 import Mathlib.Analysis.SpecialFunctions.Trigonometric.Bounds
 import Mathlib.Data.Matrix.Mul
@@ -735,5 +737,478 @@ theorem dist1_eq (x u : DVec ℝ) (t : ℝ) (x' u' : DVec ℝ)
     rw [hx] at this
     show |mkEnv x' u' t (x.length + j) - mkEnv x u t (x.length + j)| = _
     rw [mkEnv_input x u t j hj', this]
+
+/-! ### 8. explicit constants of the second-order expansion -/
+/-- Taylor with the sharp constant, `h ≥ 0` -/
+theorem sin_second_order_half_nonneg (a h : ℝ) (hh : 0 ≤ h) :
+    |Real.sin (a + h) - Real.sin a - h * Real.cos a| ≤ h ^ 2 / 2 := by
+  have hd : ∀ s : ℝ, HasDerivAt (fun s => Real.sin (a + s) - s * Real.cos a) (Real.cos (a + s) - Real.cos a) s := by
+    intro s
+    have h1 : HasDerivAt (fun s => Real.sin (a + s)) (Real.cos (a + s)) s := by
+      simpa using ((hasDerivAt_id' s).const_add a).sin
+    have h2 : HasDerivAt (fun s => s * Real.cos a) (Real.cos a) s := by
+      simpa using (hasDerivAt_id' s).mul_const (Real.cos a)
+    exact h1.fun_sub h2
+  have hsq : ∀ s : ℝ, HasDerivAt (fun s : ℝ => s ^ 2 / 2) s s := by
+    intro s
+    have := ((hasDerivAt_id' s).fun_pow 2).div_const 2
+    simpa using this
+  -- upper: g = ψ - s²/2 is antitone on [0,h]
+  have up : Real.sin (a + h) - h * Real.cos a - h ^ 2 / 2 ≤ Real.sin a := by
+    have hg : ∀ s : ℝ, HasDerivAt (fun s => Real.sin (a + s) - s * Real.cos a - s ^ 2 / 2)
+        (Real.cos (a + s) - Real.cos a - s) s := fun s => (hd s).fun_sub (hsq s)
+    have anti := antitoneOn_of_deriv_nonpos (convex_Icc (0 : ℝ) h)
+      (f := fun s => Real.sin (a + s) - s * Real.cos a - s ^ 2 / 2)
+      (fun s _ => (hg s).continuousAt.continuousWithinAt)
+      (fun s _ => (hg s).differentiableAt.differentiableWithinAt)
+      (by
+        intro s hs
+        rw [interior_Icc] at hs
+        rw [(hg s).deriv]
+        have := Real.abs_cos_sub_cos_le (a + s) a
+        rw [show a + s - a = s by ring, abs_of_nonneg hs.1.le] at this
+        linarith [le_abs_self (Real.cos (a + s) - Real.cos a)])
+    have := anti (Set.left_mem_Icc.2 hh) (Set.right_mem_Icc.2 hh) hh
+    simpa using this
+  have lo : Real.sin a ≤ Real.sin (a + h) - h * Real.cos a + h ^ 2 / 2 := by
+    have hg : ∀ s : ℝ, HasDerivAt (fun s => Real.sin (a + s) - s * Real.cos a + s ^ 2 / 2)
+        (Real.cos (a + s) - Real.cos a + s) s := fun s => (hd s).fun_add (hsq s)
+    have mono := monotoneOn_of_deriv_nonneg (convex_Icc (0 : ℝ) h)
+      (f := fun s => Real.sin (a + s) - s * Real.cos a + s ^ 2 / 2)
+      (fun s _ => (hg s).continuousAt.continuousWithinAt)
+      (fun s _ => (hg s).differentiableAt.differentiableWithinAt)
+      (by
+        intro s hs
+        rw [interior_Icc] at hs
+        rw [(hg s).deriv]
+        have := Real.abs_cos_sub_cos_le (a + s) a
+        rw [show a + s - a = s by ring, abs_of_nonneg hs.1.le] at this
+        linarith [neg_abs_le (Real.cos (a + s) - Real.cos a)])
+    have := mono (Set.left_mem_Icc.2 hh) (Set.right_mem_Icc.2 hh) hh
+    simpa using this
+  rw [abs_le]; constructor <;> linarith
+
+theorem sin_second_order_half (a h : ℝ) : |Real.sin (a + h) - Real.sin a - h * Real.cos a| ≤ h ^ 2 / 2 := by
+  rcases le_total 0 h with hh | hh
+  · exact sin_second_order_half_nonneg a h hh
+  · have := sin_second_order_half_nonneg (-a) (-h) (by linarith)
+    rw [show -a + -h = -(a + h) by ring, Real.sin_neg, Real.sin_neg, Real.cos_neg] at this
+    rw [show -Real.sin (a + h) - -Real.sin a - -h * Real.cos a = -(Real.sin (a + h) - Real.sin a - h * Real.cos a) by ring,
+      abs_neg, neg_sq] at this
+    exact this
+
+theorem cos_second_order_half (a h : ℝ) : |Real.cos (a + h) - Real.cos a + h * Real.sin a| ≤ h ^ 2 / 2 := by
+  have := sin_second_order_half (a + Real.pi / 2) h
+  rw [show a + Real.pi / 2 + h = a + h + Real.pi / 2 by ring, Real.sin_add_pi_div_two, Real.sin_add_pi_div_two,
+    Real.cos_add_pi_div_two] at this
+  rwa [show Real.cos (a + h) - Real.cos a - h * -Real.sin a = Real.cos (a + h) - Real.cos a + h * Real.sin a by ring] at this
+
+/-- at a fixed perturbation: `F0 = F p`, `F1 = F (p + d)`, `L = ` first-order part; the triple bounds them -/
+def SOB (F0 F1 L : ℝ) (b : Bnd ℝ) : Prop :=
+  |F0| ≤ b.m0 ∧ |F1| ≤ b.m0 ∧ |L| ≤ b.l ∧ |F1 - F0 - L| ≤ b.r
+
+theorem SOB_add {F0 F1 L G0 G1 M : ℝ} {a b : Bnd ℝ} (h1 : SOB F0 F1 L a) (h2 : SOB G0 G1 M b) :
+    SOB (F0 + G0) (F1 + G1) (L + M) (a.add b) := by
+  obtain ⟨a1, a2, a3, a4⟩ := h1
+  obtain ⟨b1, b2, b3, b4⟩ := h2
+  refine ⟨(abs_add_le _ _).trans (add_le_add a1 b1), (abs_add_le _ _).trans (add_le_add a2 b2),
+    (abs_add_le _ _).trans (add_le_add a3 b3), ?_⟩
+  have : F1 + G1 - (F0 + G0) - (L + M) = (F1 - F0 - L) + (G1 - G0 - M) := by ring
+  rw [this]; exact (abs_add_le _ _).trans (add_le_add a4 b4)
+
+theorem SOB_neg {F0 F1 L : ℝ} {a : Bnd ℝ} (h1 : SOB F0 F1 L a) : SOB (-F0) (-F1) (-L) a := by
+  obtain ⟨a1, a2, a3, a4⟩ := h1
+  refine ⟨by rwa [abs_neg], by rwa [abs_neg], by rwa [abs_neg], ?_⟩
+  have : -F1 - -F0 - -L = -(F1 - F0 - L) := by ring
+  rw [this, abs_neg]; exact a4
+
+theorem SOB_sub {F0 F1 L G0 G1 M : ℝ} {a b : Bnd ℝ} (h1 : SOB F0 F1 L a) (h2 : SOB G0 G1 M b) :
+    SOB (F0 - G0) (F1 - G1) (L - M) (a.add b) := by
+  have := SOB_add h1 (SOB_neg h2)
+  simpa [sub_eq_add_neg] using this
+
+theorem SOB_mul {F0 F1 L G0 G1 M : ℝ} {a b : Bnd ℝ} (h1 : SOB F0 F1 L a) (h2 : SOB G0 G1 M b) :
+    SOB (F0 * G0) (F1 * G1) (L * G0 + F0 * M) (a.mul b) := by
+  obtain ⟨a1, a2, a3, a4⟩ := h1
+  obtain ⟨b1, b2, b3, b4⟩ := h2
+  have p0 : 0 ≤ a.m0 := (abs_nonneg _).trans a1
+  have q0 : 0 ≤ b.m0 := (abs_nonneg _).trans b1
+  have pl : 0 ≤ a.l := (abs_nonneg _).trans a3
+  have pr : 0 ≤ a.r := (abs_nonneg _).trans a4
+  refine ⟨?_, ?_, ?_, ?_⟩
+  · rw [abs_mul]; exact mul_le_mul a1 b1 (abs_nonneg _) p0
+  · rw [abs_mul]; exact mul_le_mul a2 b2 (abs_nonneg _) p0
+  · calc |L * G0 + F0 * M| ≤ |L * G0| + |F0 * M| := abs_add_le _ _
+      _ = |L| * |G0| + |F0| * |M| := by rw [abs_mul, abs_mul]
+      _ ≤ a.l * b.m0 + a.m0 * b.l := by gcongr
+  · have e : F1 * G1 - F0 * G0 - (L * G0 + F0 * M)
+        = (F1 - F0 - L) * G1 + F0 * (G1 - G0 - M) + L * M + L * (G1 - G0 - M) := by ring
+    rw [e]
+    calc |(F1 - F0 - L) * G1 + F0 * (G1 - G0 - M) + L * M + L * (G1 - G0 - M)|
+        ≤ |(F1 - F0 - L) * G1| + |F0 * (G1 - G0 - M)| + |L * M| + |L * (G1 - G0 - M)| := by
+          refine (abs_add_le _ _).trans ?_
+          gcongr
+          refine (abs_add_le _ _).trans ?_
+          gcongr
+          exact abs_add_le _ _
+      _ = |F1 - F0 - L| * |G1| + |F0| * |G1 - G0 - M| + |L| * |M| + |L| * |G1 - G0 - M| := by simp only [abs_mul]
+      _ ≤ a.r * b.m0 + a.m0 * b.r + a.l * b.l + a.l * b.r := by gcongr
+
+theorem SOB_const (c : ℝ) (m : ℝ) (h : |c| ≤ m) : SOB c c 0 ⟨m, 0, 0⟩ := by
+  refine ⟨h, h, by simp, by simp⟩
+
+theorem SOB_one : SOB 1 1 0 ⟨(k 1 : ℝ), k 0, k 0⟩ := by
+  refine ⟨by simp, by simp, by simp, by simp⟩
+
+theorem SOB_pow {F0 F1 L : ℝ} {a : Bnd ℝ} (h1 : SOB F0 F1 L a) (n : ℕ) :
+    SOB (F0 ^ n) (F1 ^ n) ((n : ℝ) * F0 ^ (n - 1) * L) (a.pow n) := by
+  induction n with
+  | zero => simpa [Bnd.pow] using SOB_one
+  | succ n ih =>
+    have h := SOB_mul ih h1
+    have e : (n : ℝ) * F0 ^ (n - 1) * L * F0 + F0 ^ n * L = ((n + 1 : ℕ) : ℝ) * F0 ^ (n + 1 - 1) * L := by
+      cases n with
+      | zero => simp
+      | succ m => simp [pow_succ]; ring
+    rw [e] at h
+    simpa [pow_succ, Bnd.pow] using h
+
+theorem SOB_sin {F0 F1 L : ℝ} {a : Bnd ℝ} (h1 : SOB F0 F1 L a) :
+    SOB (Real.sin F0) (Real.sin F1) (Real.cos F0 * L) a.trig := by
+  obtain ⟨a1, a2, a3, a4⟩ := h1
+  refine ⟨by simpa [Bnd.trig] using Real.abs_sin_le_one F0, by simpa [Bnd.trig] using Real.abs_sin_le_one F1, ?_, ?_⟩
+  · rw [abs_mul]
+    calc |Real.cos F0| * |L| ≤ 1 * a.l := by gcongr; exact Real.abs_cos_le_one F0
+      _ = a.trig.l := by simp [Bnd.trig]
+  · set h := F1 - F0 with hh
+    have hF : F1 = F0 + h := by rw [hh]; ring
+    have hle : |h| ≤ a.l + a.r := by
+      have : h = L + (F1 - F0 - L) := by rw [hh]; ring
+      rw [this]; exact (abs_add_le _ _).trans (add_le_add a3 a4)
+    have e : Real.sin F1 - Real.sin F0 - Real.cos F0 * L
+        = (Real.sin (F0 + h) - Real.sin F0 - h * Real.cos F0) + Real.cos F0 * (F1 - F0 - L) := by
+      rw [hF]; ring
+    rw [e]
+    calc |(Real.sin (F0 + h) - Real.sin F0 - h * Real.cos F0) + Real.cos F0 * (F1 - F0 - L)|
+        ≤ |Real.sin (F0 + h) - Real.sin F0 - h * Real.cos F0| + |Real.cos F0 * (F1 - F0 - L)| := abs_add_le _ _
+      _ ≤ h ^ 2 / 2 + 1 * a.r := by
+          rw [abs_mul]; gcongr
+          · exact sin_second_order_half F0 h
+          · exact Real.abs_cos_le_one F0
+      _ ≤ (a.l + a.r) ^ 2 / 2 + 1 * a.r := by
+          have : h ^ 2 ≤ (a.l + a.r) ^ 2 := by rw [← sq_abs h]; gcongr
+          linarith
+      _ = a.trig.r := by simp [Bnd.trig]; ring
+
+theorem SOB_cos {F0 F1 L : ℝ} {a : Bnd ℝ} (h1 : SOB F0 F1 L a) :
+    SOB (Real.cos F0) (Real.cos F1) (-(Real.sin F0 * L)) a.trig := by
+  obtain ⟨a1, a2, a3, a4⟩ := h1
+  refine ⟨by simpa [Bnd.trig] using Real.abs_cos_le_one F0, by simpa [Bnd.trig] using Real.abs_cos_le_one F1, ?_, ?_⟩
+  · rw [abs_neg, abs_mul]
+    calc |Real.sin F0| * |L| ≤ 1 * a.l := by gcongr; exact Real.abs_sin_le_one F0
+      _ = a.trig.l := by simp [Bnd.trig]
+  · set h := F1 - F0 with hh
+    have hF : F1 = F0 + h := by rw [hh]; ring
+    have hle : |h| ≤ a.l + a.r := by
+      have : h = L + (F1 - F0 - L) := by rw [hh]; ring
+      rw [this]; exact (abs_add_le _ _).trans (add_le_add a3 a4)
+    have e : Real.cos F1 - Real.cos F0 - -(Real.sin F0 * L)
+        = (Real.cos (F0 + h) - Real.cos F0 + h * Real.sin F0) + -(Real.sin F0 * (F1 - F0 - L)) := by
+      rw [hF]; ring
+    rw [e]
+    calc |(Real.cos (F0 + h) - Real.cos F0 + h * Real.sin F0) + -(Real.sin F0 * (F1 - F0 - L))|
+        ≤ |Real.cos (F0 + h) - Real.cos F0 + h * Real.sin F0| + |-(Real.sin F0 * (F1 - F0 - L))| := abs_add_le _ _
+      _ ≤ h ^ 2 / 2 + 1 * a.r := by
+          rw [abs_neg, abs_mul]; gcongr
+          · exact cos_second_order_half F0 h
+          · exact Real.abs_sin_le_one F0
+      _ ≤ (a.l + a.r) ^ 2 / 2 + 1 * a.r := by
+          have : h ^ 2 ≤ (a.l + a.r) ^ 2 := by rw [← sq_abs h]; gcongr
+          linarith
+      _ = a.trig.r := by simp [Bnd.trig]; ring
+
+
+theorem SOB_Fn (vs : Finset ℕ) (p d ea da : ℕ → ℝ) (hp : ∀ i, |p i| ≤ ea i) (hq : ∀ i, |p i + d i| ≤ ea i)
+    (hd : ∀ i, |d i| ≤ da i) (hs : ∀ i, i ∉ vs → d i = 0) (e : Fn) :
+    SOB (e.eval p) (e.eval (fun i => p i + d i)) (linPart vs p e d) (e.bnd ea da) := by
+  induction e with
+  | const s a b =>
+    have hq0 : |(if s = true then -(q a b : ℝ) else q a b)| ≤ (q a b : ℝ) := by
+      have h0 : (0 : ℝ) ≤ q a b := by simp only [q_real]; positivity
+      split
+      · rw [abs_neg, abs_of_nonneg h0]
+      · rw [abs_of_nonneg h0]
+    have := SOB_const _ _ hq0
+    simpa [Fn.eval, Fn.bnd, linPart, Fn.D] using this
+  | var i =>
+    have hl : linPart vs p (.var i) d = d i := by
+      simp only [linPart, Fn.D]
+      by_cases hi : i ∈ vs
+      · rw [Finset.sum_eq_single i]
+        · simp
+        · intro b _ hb; simp [Ne.symm hb]
+        · intro h; exact absurd hi h
+      · rw [hs i hi, Finset.sum_eq_zero]
+        intro v hv
+        have : i ≠ v := fun h => hi (h ▸ hv)
+        simp [this]
+    rw [hl]
+    refine ⟨hp i, hq i, hd i, ?_⟩
+    simp [Fn.eval, Fn.bnd]
+  | add a b iha ihb =>
+    have := SOB_add iha ihb
+    have e : linPart vs p (.add a b) d = linPart vs p a d + linPart vs p b d := by
+      simp only [linPart, Fn.D, Fn.eval, ← Finset.sum_add_distrib]
+      exact Finset.sum_congr rfl fun v _ => by ring
+    rw [e]; simpa [Fn.eval, Fn.bnd] using this
+  | sub a b iha ihb =>
+    have := SOB_sub iha ihb
+    have e : linPart vs p (.sub a b) d = linPart vs p a d - linPart vs p b d := by
+      simp only [linPart, Fn.D, Fn.eval, ← Finset.sum_sub_distrib]
+      exact Finset.sum_congr rfl fun v _ => by ring
+    rw [e]; simpa [Fn.eval, Fn.bnd] using this
+  | mul a b iha ihb =>
+    have := SOB_mul iha ihb
+    have e : linPart vs p (.mul a b) d = linPart vs p a d * b.eval p + a.eval p * linPart vs p b d := by
+      simp only [linPart, Fn.D, Fn.eval, Finset.sum_mul, Finset.mul_sum, ← Finset.sum_add_distrib]
+      exact Finset.sum_congr rfl fun v _ => by ring
+    rw [e]; simpa [Fn.eval, Fn.bnd] using this
+  | neg a iha =>
+    have := SOB_neg iha
+    have e : linPart vs p (.neg a) d = -linPart vs p a d := by
+      simp only [linPart, Fn.D, Fn.eval, ← Finset.sum_neg_distrib]
+      exact Finset.sum_congr rfl fun v _ => by ring
+    rw [e]; simpa [Fn.eval, Fn.bnd] using this
+  | sin a iha =>
+    have := SOB_sin iha
+    have e : linPart vs p (.sin a) d = Real.cos (a.eval p) * linPart vs p a d := by
+      simp only [linPart, Fn.D, Fn.eval, Finset.mul_sum, cos_real]
+      exact Finset.sum_congr rfl fun v _ => by ring
+    rw [e]; simpa [Fn.eval, Fn.bnd] using this
+  | cos a iha =>
+    have := SOB_cos iha
+    have e : linPart vs p (.cos a) d = -(Real.sin (a.eval p) * linPart vs p a d) := by
+      simp only [linPart, Fn.D, Fn.eval, Finset.mul_sum, sin_real, ← Finset.sum_neg_distrib]
+      exact Finset.sum_congr rfl fun v _ => by ring
+    rw [e]; simpa [Fn.eval, Fn.bnd] using this
+  | pow a n iha =>
+    have := SOB_pow iha n
+    have e : linPart vs p (.pow a n) d = (n : ℝ) * a.eval p ^ (n - 1) * linPart vs p a d := by
+      cases n with
+      | zero => simp [linPart, Fn.D]
+      | succ m =>
+        simp only [linPart, Fn.D, Fn.eval, Finset.mul_sum, npow_real, Nat.add_sub_cancel]
+        refine Finset.sum_congr rfl fun v _ => ?_
+        simp
+        ring
+    rw [e]; simpa [Fn.eval, Fn.bnd, npow_real] using this
+
+/-- `b'` is the bound triple of the perturbation scaled by `h`: same value bound, linear part scaled by `h`, remainder at
+most `h²` times the unscaled one (all bounds non-negative) -/
+def Sc (h : ℝ) (b' b : Bnd ℝ) : Prop :=
+  b'.m0 = b.m0 ∧ b'.l = h * b.l ∧ 0 ≤ b'.r ∧ b'.r ≤ h ^ 2 * b.r ∧ 0 ≤ b.m0 ∧ 0 ≤ b.l ∧ 0 ≤ b.r
+
+theorem Sc_add {h : ℝ} {a' a b' b : Bnd ℝ} (ha : Sc h a' a) (hb : Sc h b' b) : Sc h (a'.add b') (a.add b) := by
+  obtain ⟨a1, a2, a3, a4, a5, a6, a7⟩ := ha
+  obtain ⟨b1, b2, b3, b4, b5, b6, b7⟩ := hb
+  refine ⟨by simp [Bnd.add, a1, b1], by simp [Bnd.add, a2, b2]; ring, by simp only [Bnd.add]; positivity, ?_,
+    by simp only [Bnd.add]; positivity, by simp only [Bnd.add]; positivity, by simp only [Bnd.add]; positivity⟩
+  simp only [Bnd.add]; nlinarith
+
+theorem Sc_mul {h : ℝ} (h0 : 0 ≤ h) (h1 : h ≤ 1) {a' a b' b : Bnd ℝ} (ha : Sc h a' a) (hb : Sc h b' b) :
+    Sc h (a'.mul b') (a.mul b) := by
+  obtain ⟨a1, a2, a3, a4, a5, a6, a7⟩ := ha
+  obtain ⟨b1, b2, b3, b4, b5, b6, b7⟩ := hb
+  have hl' : 0 ≤ a'.l := by rw [a2]; positivity
+  have hlb' : 0 ≤ b'.l := by rw [b2]; positivity
+  refine ⟨by simp [Bnd.mul, a1, b1], by simp [Bnd.mul, a1, b1, a2, b2]; ring, ?_, ?_,
+    by simp only [Bnd.mul]; positivity, by simp only [Bnd.mul]; positivity, by simp only [Bnd.mul]; positivity⟩
+  · simp only [Bnd.mul, a1, b1]; positivity
+  · simp only [Bnd.mul, a1, b1, a2, b2]
+    have e1 : a'.r * b.m0 ≤ h ^ 2 * a.r * b.m0 := by gcongr
+    have e2 : a.m0 * b'.r ≤ a.m0 * (h ^ 2 * b.r) := by gcongr
+    have e3 : h * a.l * b'.r ≤ h * a.l * (h ^ 2 * b.r) := by gcongr
+    have e4 : h * a.l * (h ^ 2 * b.r) ≤ h ^ 2 * (a.l * b.r) := by
+      have : h * h ^ 2 ≤ h ^ 2 := by nlinarith [sq_nonneg h]
+      have hab : 0 ≤ a.l * b.r := by positivity
+      calc h * a.l * (h ^ 2 * b.r) = (h * h ^ 2) * (a.l * b.r) := by ring
+        _ ≤ h ^ 2 * (a.l * b.r) := by gcongr
+    nlinarith
+
+theorem Sc_trig {h : ℝ} (h0 : 0 ≤ h) (h1 : h ≤ 1) {a' a : Bnd ℝ} (ha : Sc h a' a) : Sc h a'.trig a.trig := by
+  obtain ⟨a1, a2, a3, a4, a5, a6, a7⟩ := ha
+  have hl' : 0 ≤ a'.l := by rw [a2]; positivity
+  refine ⟨by simp [Bnd.trig], by simp [Bnd.trig, a2], by simp only [Bnd.trig, k_real]; positivity, ?_,
+    by simp [Bnd.trig], by simpa [Bnd.trig] using a6, by simp only [Bnd.trig, k_real]; positivity⟩
+  simp only [Bnd.trig, k_real, Nat.cast_ofNat]
+  have hsum : a'.l + a'.r ≤ h * (a.l + a.r) := by
+    rw [a2]
+    have : h ^ 2 * a.r ≤ h * a.r := by
+      have : h ^ 2 ≤ h := by nlinarith
+      gcongr
+    linarith
+  have hsq : (a'.l + a'.r) * (a'.l + a'.r) ≤ (h * (a.l + a.r)) * (h * (a.l + a.r)) := by
+    have : 0 ≤ a'.l + a'.r := by positivity
+    gcongr
+  nlinarith
+
+theorem Sc_pow {h : ℝ} (h0 : 0 ≤ h) (h1 : h ≤ 1) {a' a : Bnd ℝ} (ha : Sc h a' a) (n : ℕ) : Sc h (a'.pow n) (a.pow n) := by
+  induction n with
+  | zero => refine ⟨rfl, by simp [Bnd.pow], by simp [Bnd.pow], by simp [Bnd.pow], by simp [Bnd.pow], by simp [Bnd.pow], by simp [Bnd.pow]⟩
+  | succ n ih => exact Sc_mul h0 h1 ih ha
+
+/-- **The explicit constants scale like a second-order term**: scaling the perturbation bound by `0 ≤ h ≤ 1` keeps the
+value bound, scales the first-order bound by `h` and the remainder bound by at most `h²`. -/
+theorem bnd_scale' (ea da : ℕ → ℝ) (he : ∀ i, 0 ≤ ea i) (hd : ∀ i, 0 ≤ da i) (h : ℝ) (h0 : 0 ≤ h) (h1 : h ≤ 1) (e : Fn) :
+    Sc h (e.bnd ea (fun i => h * da i)) (e.bnd ea da) := by
+  induction e with
+  | const s a b =>
+    have : (0 : ℝ) ≤ q a b := by simp only [q_real]; positivity
+    refine ⟨rfl, by simp [Fn.bnd], by simp [Fn.bnd], by simp [Fn.bnd], by simpa [Fn.bnd] using this, by simp [Fn.bnd], by simp [Fn.bnd]⟩
+  | var i => refine ⟨rfl, rfl, by simp [Fn.bnd], by simp [Fn.bnd], he i, hd i, by simp [Fn.bnd]⟩
+  | add a b iha ihb => exact Sc_add iha ihb
+  | sub a b iha ihb => exact Sc_add iha ihb
+  | mul a b iha ihb => exact Sc_mul h0 h1 iha ihb
+  | neg a iha => exact iha
+  | sin a iha => exact Sc_trig h0 h1 iha
+  | cos a iha => exact Sc_trig h0 h1 iha
+  | pow a n iha => exact Sc_pow h0 h1 iha n
+
+/-! ### 9. broadcasting: nested projections compose -/
+section
+open Batch
+
+theorem projEq_length : ∀ (s : Shape) (i : List Nat), (projEq s i).length = min s.length i.length
+  | [], i => by simp [projEq]
+  | _ :: _, [] => by simp [projEq]
+  | _ :: s, _ :: is => by simp [projEq, projEq_length s is]
+
+theorem projEq_drop : ∀ (m : Nat) (s : Shape) (i : List Nat), (projEq s i).drop m = projEq (s.drop m) (i.drop m)
+  | 0, s, i => by simp
+  | m + 1, [], i => by simp [projEq]
+  | m + 1, _ :: _, [] => by simp [projEq]
+  | m + 1, _ :: s, _ :: is => by simp [projEq, projEq_drop m s is]
+
+/-- equal rank: projecting onto the broadcast result first does not change the projection onto an operand -/
+theorem projEq_projEq : ∀ {p q r : Shape} (i : List Nat), bzip p q = some r → projEq p (projEq r i) = projEq p i
+  | [], [], r, i, h => by simp [projEq]
+  | [], _ :: _, _, _, h => by simp [bzip] at h
+  | _ :: _, [], _, _, h => by simp [bzip] at h
+  | p0 :: p, q0 :: q, r, i, h => by
+    simp only [bzip] at h
+    cases hd : bdim p0 q0 with
+    | none => simp [hd] at h
+    | some d =>
+      cases hz : bzip p q with
+      | none => simp [hd, hz] at h
+      | some r' =>
+        simp only [hd, hz, Option.some.injEq] at h
+        subst h
+        cases i with
+        | nil => simp [projEq]
+        | cons i0 is =>
+          simp only [projEq]
+          rw [projEq_projEq is hz]
+          congr 1
+          by_cases hp : p0 = 1
+          · simp [hp]
+          · have : d ≠ 1 := by
+              unfold bdim at hd
+              by_cases e1 : p0 = q0
+              · simp [e1] at hd; subst hd; rw [← e1]; exact hp
+              · simp only [e1, if_false, hp] at hd
+                by_cases e2 : q0 = 1
+                · simp [e2] at hd; subst hd; exact hp
+                · simp [e2] at hd
+            simp [hp, this]
+
+theorem bzip_drop_replicate : ∀ (m : Nat) (a q r : Shape), bzip (List.replicate m 1 ++ a) q = some r →
+    bzip a (q.drop m) = some (r.drop m)
+  | 0, a, q, r, h => by simpa using h
+  | m + 1, a, [], r, h => by simp [List.replicate_succ, bzip] at h
+  | m + 1, a, q0 :: q, r, h => by
+    simp only [List.replicate_succ, List.cons_append, bzip] at h
+    cases hd : bdim 1 q0 with
+    | none => simp [hd] at h
+    | some d =>
+      cases hz : bzip (List.replicate m 1 ++ a) q with
+      | none => simp [hd, hz] at h
+      | some r' =>
+        simp only [hd, hz, Option.some.injEq] at h
+        subst h
+        simpa using bzip_drop_replicate m a q r' hz
+
+/-- **Nested broadcasts compose**: if `a` was broadcast (with anything) to `s`, then for any index `i` of a shape of rank
+at least that of `s`, projecting `i` onto `s` and then onto `a` is projecting `i` onto `a`. -/
+theorem proj_proj {a b s : Shape} (h : broadcastShapes a b = some s) (i : List Nat) (hi : s.length ≤ i.length) :
+    proj a (proj s i) = proj a i := by
+  unfold broadcastShapes at h
+  simp only at h
+  have hl := bzip_length h
+  have hn : (max a.length b.length) = s.length := by
+    rw [hl.1, padTo_length (Nat.le_max_left _ _)]
+  have hal : a.length ≤ s.length := by rw [← hn]; exact Nat.le_max_left _ _
+  rw [hn] at h
+  set m := s.length - a.length with hm
+  have h' : bzip a ((padTo s.length b).drop m) = some (s.drop m) := bzip_drop_replicate m a _ s (by simpa [padTo, hm] using h)
+  unfold proj
+  have l1 : (projEq s (i.drop (i.length - s.length))).length = s.length := by
+    rw [projEq_length]; simp; omega
+  rw [l1, projEq_drop]
+  have e : (i.drop (i.length - s.length)).drop (s.length - a.length) = i.drop (i.length - a.length) := by
+    rw [List.drop_drop]; congr 1; omega
+  rw [e]
+  exact projEq_projEq _ h'
+
+
+theorem proj_length (s : Shape) (i : List Nat) (h : s.length ≤ i.length) : (proj s i).length = s.length := by
+  unfold proj; rw [projEq_length]; simp; omega
+
+theorem broadcastShapes_length {a b s : Shape} (h : broadcastShapes a b = some s) :
+    a.length ≤ s.length ∧ b.length ≤ s.length := by
+  unfold broadcastShapes at h
+  simp only at h
+  have hl := bzip_length h
+  rw [padTo_length (Nat.le_max_left _ _)] at hl
+  have := hl.1
+  constructor
+  · rw [this]; exact Nat.le_max_left _ _
+  · rw [this]; exact Nat.le_max_right _ _
+
+theorem proj_proj_right {a b s : Shape} (h : broadcastShapes a b = some s) (i : List Nat) (hi : s.length ≤ i.length) :
+    proj b (proj s i) = proj b i := by
+  rw [broadcastShapes_comm] at h; exact proj_proj h i hi
+
+/-- two broadcasts in a row: `a → s1 → s2` -/
+theorem proj_trans {a b c s1 s2 : Shape} (h1 : broadcastShapes a b = some s1) (h2 : broadcastShapes s1 c = some s2)
+    (i : List Nat) (hi : s2.length ≤ i.length) : proj a (proj s2 i) = proj a i := by
+  have l12 := (broadcastShapes_length h2).1
+  rw [← proj_proj h1 (proj s2 i) (by rw [proj_length s2 i hi]; exact l12), proj_proj h2 i hi, proj_proj h1 i (by omega)]
+
+theorem proj_trans_right {a b c s1 s2 : Shape} (h1 : broadcastShapes a b = some s1) (h2 : broadcastShapes s1 c = some s2)
+    (i : List Nat) (hi : s2.length ≤ i.length) : proj b (proj s2 i) = proj b i := by
+  rw [broadcastShapes_comm] at h1; exact proj_trans h1 h2 i hi
+
+theorem bcast2_itemwise {β γ δ : Type} (f : β → γ → δ) (x : Batch.T β) (y : Batch.T γ) (out : Shape)
+    (h : broadcastShapes x.shape y.shape = some out) :
+    ∃ r, bcast2 f x y = some r ∧ r.shape = out ∧
+      ∀ i, inb out i → r.get i = f (x.get (proj x.shape i)) (y.get (proj y.shape i)) := by
+  refine ⟨⟨out, fun k => f (x.get (proj x.shape (unravel out k))) (y.get (proj y.shape (unravel out k)))⟩,
+    by simp [bcast2, h], rfl, ?_⟩
+  intro i hi
+  show f (x.get (proj x.shape (unravel out (ravel out i)))) (y.get (proj y.shape (unravel out (ravel out i)))) = _
+  rw [unravel_ravel' hi]
+
+theorem bcast2_raises {β γ δ : Type} (f : β → γ → δ) (x : Batch.T β) (y : Batch.T γ)
+    (h : broadcastShapes x.shape y.shape = none) : bcast2 f x y = none := by
+  simp [bcast2, h]
+
+theorem bcast2_isSome {β γ δ : Type} (f : β → γ → δ) (x : Batch.T β) (y : Batch.T γ) :
+    (bcast2 f x y).isSome = (broadcastShapes x.shape y.shape).isSome := by
+  unfold bcast2; cases broadcastShapes x.shape y.shape <;> rfl
+
+
+
+end
 
 end PP.Dyn
